@@ -1385,6 +1385,68 @@ def rule_O5(ctx, rule: str = "O5") -> None:
 
 
 # ---------------------------------------------------------------------------
+# O7 tables keyed by group are built from all members of the group
+
+
+def _lossy_groupby(tree: ast.AST):
+    """(function name, node) of `itertools.groupby(X, key=K)` results that are turned into a mapping (dict comprehension / dict())
+    although X is not sorted by K: groupby only joins *adjacent* items, a key that occurs in several runs keeps its last run"""
+    out = []
+    for fn in ast.walk(tree):
+        if not isinstance(fn, (ast.FunctionDef, ast.AsyncFunctionDef)):
+            continue
+        for n in ast.walk(fn):
+            gb = None
+            if isinstance(n, ast.DictComp) and len(n.generators) >= 1:
+                it = n.generators[0].iter
+                if isinstance(it, ast.Call) and ast.unparse(it.func).split(".")[-1] == "groupby":
+                    gb = it
+            elif isinstance(n, ast.Call) and isinstance(n.func, ast.Name) and n.func.id == "dict" and n.args and isinstance(n.args[0], (ast.GeneratorExp, ast.ListComp)):
+                it = n.args[0].generators[0].iter
+                if isinstance(it, ast.Call) and ast.unparse(it.func).split(".")[-1] == "groupby":
+                    gb = it
+            elif isinstance(n, ast.For) and isinstance(n.iter, ast.Call) and ast.unparse(n.iter.func).split(".")[-1] == "groupby":
+                # for k, run in groupby(..): table[k] = <run>  (a plain store overwrites; setdefault / update / |= accumulate)
+                if any(isinstance(st, ast.Assign) and any(isinstance(t, ast.Subscript) for t in st.targets) for st in ast.walk(n)):
+                    gb = n.iter
+            if gb is None or not gb.args:
+                continue
+            src = gb.args[0]
+            key = next((ast.unparse(k.value) for k in gb.keywords if k.arg == "key"), ast.unparse(gb.args[1]) if len(gb.args) > 1 else None)
+            if isinstance(src, ast.Name):
+                binds = [a.value for a in ast.walk(fn) if isinstance(a, ast.Assign) and len(a.targets) == 1 and isinstance(a.targets[0], ast.Name) and a.targets[0].id == src.id]
+                if len(binds) == 1:
+                    src = binds[0]
+            is_sorted = isinstance(src, ast.Call) and ast.unparse(src.func) == "sorted" and (
+                key is None or any(k.arg == "key" and ast.unparse(k.value) == key for k in src.keywords))
+            if not is_sorted:
+                out.append((fn.name, gb))
+    return out
+
+
+def rule_O7(ctx, rule: str = "O7") -> None:
+    """the per-group tables of the class metadata see every member of a group wherever it is declared: no table is filled from
+    itertools.groupby over the fields in declaration order (groups of hand-written classes may be declared interleaved)"""
+    import pathlib
+    from ..src import Module
+    ctl = pathlib.Path(__file__).resolve().parent.parent / "controls" / "groupby_unsorted.py"
+    cm = Module("controls/groupby_unsorted.py", ctl)
+    flagged = {f for f, _ in _lossy_groupby(cm.tree)}
+    if flagged != {"members_by_group_lossy"}:
+        raise AnalysisError(f"O7 positive control: expected exactly `members_by_group_lossy` to be flagged, got {sorted(flagged)}")
+    mod = ctx.repo.mod(M_INIT)
+    hits = _lossy_groupby(mod.tree)
+    ctx.count(len([n for n in ast.walk(mod.tree) if isinstance(n, (ast.FunctionDef, ast.AsyncFunctionDef))]))
+    if hits:
+        fname, node = hits[0]
+        ctx.refuted(rule, "metadata:group-tables-complete", f"{fname}:groupby", mod.loc(node),
+                    f"{fname} builds a mapping from `{ast.unparse(node)[:100]}`: groupby joins adjacent items only, so for a class whose oneof groups are declared interleaved "
+                    "(a1, b1, a2, b2) each group keeps its last run; an earlier member is then not in its group's table - assigning it neither selects it nor resets its siblings",
+                    "class M: a1 (group a), b1 (group b), a2 (group a), b2 (group b);  m.a1 = 1; which_one_of(m, 'a')")
+    else:
+        ctx.proved(rule, "metadata:group-tables-complete", mod.rel, "no mapping is built from an unsorted groupby")
+
+
 # O6 decoded members are assigned in wire order
 
 
